@@ -98,7 +98,11 @@ func (c19) Gen(r *sim.Rand, tier string, run uint64) *sim.Scenario {
 		out = append(out, ops[b:]...)
 		ops = out
 	}
-	if set, base := genBase(r, size+8); set {
+	if r.Chance(1, 10) && size > 2 {
+		// a base close to the end of a bank: the program counter runs across $xx:FFFF
+		base := int64(r.Intn(255))<<16 | (0x10000 - int64(r.Range(1, size-1)))
+		ops = append([]sim.Op{{K: "setbase", N: []int64{base}}}, ops...)
+	} else if set, base := genBase(r, size+8); set {
 		ops = append([]sim.Op{{K: "setbase", N: []int64{int64(base)}}}, ops...)
 	}
 	var caps []int64
